@@ -224,3 +224,112 @@ class LinCombination(_Arr):
     def post(self, c, r, cofs, vals):
         return {"V.value": Eq(c.v(r), z3.Sum([imul(c.v(a), c.v(b)) for a, b in zip(cofs, vals)])),
                 "V.inv": c.inv(r)}
+
+
+# ---------------------------------------------------------------------------
+# element-wise array arithmetic and linalg helpers
+# ---------------------------------------------------------------------------
+
+class _ArrOp(_Arr):
+    spec = None
+    other = "array"
+
+    def configs(self, tier):
+        return [dict(mode="plain", n=n) for n in (1, 3)]
+
+    def setup(self, c, cfg):
+        apply_mode(c, cfg["mode"])
+        am = _arr_mod(c)
+        self._a = [c.operand("a%d" % j) for j in range(cfg["n"])]
+        A = am.Array(list(self._a))
+        if self.other == "array":
+            self._b = [c.operand("b%d" % j) for j in range(cfg["n"])]
+            o = am.Array(list(self._b))
+        elif self.other == "secret":
+            o = c.operand("s")
+        else:
+            o = c.public_int("k")
+        self._o = o
+        return getattr(am.Array, self.name.rsplit(".", 1)[1].split("#")[0]), (A, o), {}
+
+    def post(self, c, r, A, o):
+        am = _arr_mod(c)
+        d = {"V.type": isinstance(r, am.Array) and len(r.arr) == len(self._a),
+             "F.operands_unchanged": all(x is y for x, y in zip(A.arr, self._a))}
+        if not d["V.type"]:
+            return d
+        cl = []
+        for j, x in enumerate(r.arr):
+            ov = c.v(self._b[j]) if self.other == "array" else (c.v(o) if self.other == "secret" else term(o))
+            cl.append(Eq(c.v(x), self.spec(c.v(self._a[j]), ov)))
+        d["V.values"] = And(*cl)
+        d["V.inv"] = And(*[c.inv(x) for x in r.arr])
+        return d
+
+
+@register
+class ArrAdd(_ArrOp):
+    name = "pysnark.array:Array.__add__"
+    spec = staticmethod(lambda a, b: a + b)
+
+
+@register
+class ArrAddScalar(_ArrOp):
+    name = "pysnark.array:Array.__add__#scalar"
+    other = "int"
+    spec = staticmethod(lambda a, b: a + b)
+
+
+@register
+class ArrSub(_ArrOp):
+    name = "pysnark.array:Array.__sub__"
+    spec = staticmethod(lambda a, b: a - b)
+
+
+@register
+class ArrScale(_ArrOp):
+    name = "pysnark.array:Array.__rmul__"
+    other = "secret"
+    spec = staticmethod(lambda a, b: imul(b, a))
+
+
+@register
+class ArrScaleInt(_ArrOp):
+    name = "pysnark.array:Array.__rmul__#int"
+    other = "int"
+    spec = staticmethod(lambda a, b: imul(b, a))
+
+
+@register
+class ArrAssertEq(_Arr):
+    """Array.assert_eq: element-wise equality enforced; different lengths are refused"""
+    name = "pysnark.array:Array.assert_eq"
+    sprops = ("C15", "C03")
+    vprops = ("C15", "C03")
+
+    def configs(self, tier):
+        return [dict(mode=m, n=2, m2=k) for m in ("plain", "ie") for k in (2, 3)]
+
+    def setup(self, c, cfg):
+        apply_mode(c, cfg["mode"])
+        am = _arr_mod(c)
+        self._a = [c.operand("a%d" % j) for j in range(cfg["n"])]
+        self._b = [c.operand("b%d" % j) for j in range(cfg["m2"])]
+        return am.Array.assert_eq, (am.Array(list(self._a)), am.Array(list(self._b))), {}
+
+    covers_normal = False
+
+    def raises(self, c, A, B):
+        if len(self._a) != len(self._b):
+            return [(ValueError, True)]
+        return [(AssertionError, And(Not(ie(c)), Or(*[c.v(x) != c.v(y) for x, y in zip(self._a, self._b)])))]
+
+    def post(self, c, r, A, B):
+        tied = And(*[c.tied(x) for x in self._a + self._b])
+        sm = And(*[small(c, c.v(x), c.v(y)) for x, y in zip(self._a, self._b)])
+        return {"E.enforced": Implies(And(on(c), tied, sm), And(*[c.v(x) == c.v(y) for x, y in zip(self._a, self._b)]))}
+
+
+def small(c, *ts):
+    q = c.p // 4
+    return And(*[And(t > -q, t < q) for t in ts])
